@@ -96,6 +96,7 @@ func replay(b behaviour, cfg runCfg, opt replayOpt) (f *finding, st replayStats,
 		sort.Ints(xs)
 		return xs
 	}
+	sharedTokens := false // some copy shares a Tokens map with its original (aliasing seen through GetAccount)
 	// rootCheck compares the root the instance just produced with its isolated twins.
 	rootCheck := func(step int, x int, in *inst, root [32]byte, what string) (*finding, error) {
 		if !opt.rootTwins {
@@ -113,6 +114,11 @@ func replay(b behaviour, cfg runCfg, opt replayOpt) (f *finding, st replayStats,
 		if troot != root {
 			d := accountDiff(cfg, in.s, tw.s)
 			field := d[:strings.Index(d, ":")]
+			if sharedTokens && field == "root" {
+				// zero entries written through a shared Tokens map change encodings that the running hash
+				// of updates remembers even after the account is gone: same mechanism, same key
+				field = "tokens"
+			}
 			return &finding{true, "copy-leak/" + field + "@" + mode,
 				fmt.Sprintf("%s mode: %s of instance %d is %x, but %x for a twin that made the same calls in isolation (no sibling instance touched after a copy): %s", mode, what, x, root[:6], troot[:6], d),
 				step, rec(step, map[string]interface{}{"instance": x, "root": fmt.Sprintf("%x", root), "twin_root": fmt.Sprintf("%x", troot), "difference": d})}, nil
@@ -156,6 +162,7 @@ func replay(b behaviour, cfg runCfg, opt replayOpt) (f *finding, st replayStats,
 					}
 				}()
 				w.insts[l.J] = src.copyInst()
+				sharedTokens = sharedTokens || sharesTokens(cfg, src.s, w.insts[l.J].s)
 			}()
 		case "drop":
 			delete(w.insts, l.I)
@@ -232,6 +239,11 @@ func replay(b behaviour, cfg runCfg, opt replayOpt) (f *finding, st replayStats,
 			ok := obsKey(m.obs)
 			ex := map[string]interface{}{"failing_call": l, "instance": x, "observable": m.obs, "mismatch": m.detail, "expected": want}
 			switch {
+			case ok == "tokens" && sharedTokens && !(l.Op == "copy" && x == l.J):
+				// one mechanism, one key: a write through the shared map can also surface later, e.g. when a
+				// revert re-installs a journalled object whose map a sibling has written in the meantime
+				return &finding{true, "copy-leak/tokens@" + mode,
+					fmt.Sprintf("%s mode: a copy shares the Tokens map of its original; after %s on instance %d: %s", mode, l.Op, l.I, m.detail), k, rec(k, ex)}, st, nil
 			case l.Op == "copy" && x == l.J:
 				cause := ok
 				if m.addr > 0 && lastCallOn(w.insts[l.I].eff, m.addr) == "create" {
@@ -354,14 +366,9 @@ type job struct {
 	expect   string // expected violated property ("" = none)
 }
 
-var reConst = map[string]*regexp.Regexp{}
-
+// setConst replaces the value of a constant in the text of a configuration file.
 func setConst(cfg, name, val string) string {
-	re := reConst[name]
-	if re == nil {
-		re = regexp.MustCompile(`(?m)^(\s*` + name + `\s*=\s*).*$`)
-		reConst[name] = re
-	}
+	re := regexp.MustCompile(`(?m)^(\s*` + name + `\s*=\s*).*$`)
 	return re.ReplaceAllString(cfg, "${1}"+val)
 }
 
@@ -423,29 +430,32 @@ func run(c *core.Ctx) {
 		} else {
 			wide := map[string]string{"SetV": "{0, 2}"}
 			add("all-edges3", "StateDB.cfg", false, 0, false, wide)
-			add("all-edges3-del", "StateDB.cfg", true, 0, false, wide)
-			if !flat {
-				add("one-edges5", "StateDB_one.cfg", false, 5, false, nil)
-			} else {
+			if flat {
+				add("all-edges3-del", "StateDB.cfg", true, 0, false, wide)
 				add("one-edges4", "StateDB_one.cfg", false, 0, false, nil)
+			} else {
+				add("one-edges4", "StateDB_one.cfg", false, 0, false, wide)
 			}
 			add("copy-paths4", "StateDB_copy.cfg", false, 0, true, nil)
-			add("copy-edges5", "StateDB_copy.cfg", false, 5, false, nil)
-			add("logs-paths9", "StateDB_logs.cfg", false, 9, true, nil)
-			add("life-paths5", "StateDB_life.cfg", false, 0, true, nil)
-			add("life-paths5-del", "StateDB_life.cfg", true, 0, true, nil)
-			add("life-edges6", "StateDB_life.cfg", false, 6, false, nil)
-			add("life-edges6-del", "StateDB_life.cfg", true, 6, false, nil)
+			if !flat {
+				add("logs-paths9", "StateDB_logs.cfg", false, 9, true, nil)
+			}
+			if flat {
+				add("life-paths5", "StateDB_life.cfg", false, 0, true, nil)
+				add("life-paths5-del", "StateDB_life.cfg", true, 0, true, nil)
+			} else {
+				add("life-edges5", "StateDB_life.cfg", false, 0, false, nil)
+			}
 		}
 		if flat {
-			add("fcopy-paths", "StateDB_fcopy.cfg", false, c.Pick(0, 6), true, nil)
+			add("fcopy-paths", "StateDB_fcopy.cfg", false, 0, true, nil)
 		}
 		for _, de := range []bool{false, true} {
 			if !c.Thorough() && de != flat {
 				continue // quick tier: trie/del=false and flat/del=true
 			}
 			jobs = append(jobs, job{name: fmt.Sprintf("sim/%s/del=%v", m, de), module: "StateDBSim", cfgFile: "StateDBSim.cfg", flat: flat, delEmpty: de,
-				sim: c.Pick(40, 3000), export: true})
+				sim: c.Pick(40, 600), export: true})
 		}
 	}
 	// the two deviations of the code, as coded: TLC must report what the replay finds on the code
@@ -546,7 +556,7 @@ func run(c *core.Ctx) {
 						}
 					}
 				}
-				if wk.n == 7 {
+				if (wk.jb.sim > 0 && wk.n == 3) || wk.n == 9000 {
 					c.Sample(map[string]interface{}{"configuration": wk.jb.name, "calls": b.labels(len(b)), "expected_after_last_call": b[len(b)-1].O})
 				}
 			}
@@ -581,7 +591,7 @@ func run(c *core.Ctx) {
 				cfg = regexp.MustCompile(`(?m)^VIEW .*$`).ReplaceAllString(cfg, "")
 			}
 			opt := tlc.Options{SpecDir: specDir, Module: jb.module, Config: "gen.cfg", Files: map[string][]byte{"gen.cfg": []byte(cfg)},
-				Workers: 1, Timeout: c.MinutesT(4, 25), HeapMB: 3072}
+				Workers: 1, Timeout: c.MinutesT(6, 26), HeapMB: 3072}
 			var n int64
 			if jb.export {
 				opt.OnLine = func(line string) {
@@ -620,7 +630,7 @@ func run(c *core.Ctx) {
 	go func() { twg.Wait(); close(workCh); wg.Wait(); close(done) }()
 	select {
 	case <-done:
-	case <-time.After(c.MinutesT(6, 29)):
+	case <-time.After(c.MinutesT(9, 29)):
 		c.Infra("timed out (%d behaviours replayed so far)", atomic.LoadInt64(&cnt.behaviours))
 		return
 	}
@@ -649,7 +659,7 @@ func run(c *core.Ctx) {
 	if cnt.controls == 0 {
 		c.Infra("no negative control was run")
 	}
-	o.Explanation = "root-after-revert drift: SetTokenBalance inserts a zero entry into the account's Tokens map before journalling and the revert writes the zero back, so the encoded account (and the root) of an instance that reverted a token write differs from a twin that never made it while every getter agrees; the property names the getters, not the root, for reverts."
+	o.Explanation = "root-after-revert drift: SetTokenBalance inserts a zero entry into the account's Tokens map before journalling and the revert writes the zero back, so the encoded account (and the root) of an instance that reverted a token write differs from a twin that never made it while every getter agrees; IntermediateRoot hashes the updates since the last Hash() call (including those of an earlier Commit), so the difference can outlive the account (class root-after-revert/root). The property names the getters, not the root, for reverts."
 }
 
 // runReplayFile re-executes the behaviour of a replay record.
